@@ -379,6 +379,12 @@ zix_hash_erase(ZixHash* const        hash,
   assert(hash);
   assert(removed);
 
+  // Refuse anything that is not the position of a record
+  if (i >= hash->n_entries || !hash->entries[i].value) {
+    *removed = NULL;
+    return ZIX_STATUS_BAD_ARG;
+  }
+
   // Replace entry with a tombstone
   *removed               = hash->entries[i].value;
   hash->entries[i].hash  = tombstone;
